@@ -457,6 +457,32 @@ func ruleFanOut(w *World, r *Report, rule string) {
 					}
 					return true
 				})
+				// ... and on its identity (descriptor, key, a marker), never on the value that was
+				// produced: an output that is not stored is constructed again by the next resolution
+				if onlyElem {
+					var instField *types.Var
+					var instObj types.Object
+					for _, a := range set.Args {
+						if tv, ok := info.Types[a]; ok && types.IsInterface(tv.Type) {
+							instField = fieldOf(info, a)
+							instObj = objOf(info, a)
+						}
+					}
+					onValue := false
+					ast.Inspect(cd, func(y ast.Node) bool {
+						if sel, ok := y.(*ast.SelectorExpr); ok && instField != nil && fieldOf(info, sel) == instField {
+							onValue = true
+						}
+						if id, ok := y.(*ast.Ident); ok && instObj != nil && info.Uses[id] == instObj {
+							onValue = true
+						}
+						return true
+					})
+					if onValue {
+						bad++
+						r.Fail(rule, fmt.Sprintf("%s#fan-out(%s)/value-dependent", fi.Name(), exprStr(rs.X)), cd.Pos(), "whether an output is handed to setInstance depends on the value the constructor produced (%s): an output that is not stored is a cache miss for ever - every resolution of it runs the shared constructor again, and the fan-out overwrites the cached sibling outputs with new instances", exprStr(cd))
+					}
+				}
 				if !onlyElem {
 					bad++
 					r.Fail(rule, fmt.Sprintf("%s#fan-out(%s)/conditional", fi.Name(), exprStr(rs.X)), cd.Pos(), "setInstance is only called when %s holds: some outputs of the constructor call are never stored or tracked", exprStr(cd))
